@@ -52,11 +52,12 @@ VARIABLES
   snap,       \* checkpoint obtained by getCheckpoint, not yet written (None or checkpoint)
   bgPrev,     \* runBackgroundStore's `prev`
   storeHead,  \* head of the header store
+  tail,       \* tail of the header store (it advances when old headers are pruned, while the DASer is down)
   sampledOK,  \* ghost: heights whose availability check returned success / outside window
   budget      \* [fail, cancel, stop] remaining environment budgets
 
 vars == <<phase, cpc, next, head, failed, inRetry, jobs, nextId, done, persisted, snap, bgPrev,
-          storeHead, sampledOK, budget>>
+          storeHead, tail, sampledOK, budget>>
 
 EmptyFn == [x \in {} |-> 0]
 (* "no checkpoint": a record no real checkpoint equals (SampleFrom >= TailH >= 1) *)
@@ -107,8 +108,13 @@ CheckDone(js, fl, nx, hd) == js = {} /\ fl = {} /\ nx > hd
 Start ==
   /\ phase = "stopped"
   /\ LET cp0 == IF persisted = None
-                  THEN [from |-> TailH, head |-> storeHead, failed |-> EmptyFn, workers |-> {}]
-                  ELSE [persisted EXCEPT !.head = Max(persisted.head, storeHead)]
+                  THEN [from |-> tail, head |-> storeHead, failed |-> EmptyFn, workers |-> {}]
+                  ELSE \* DASer.checkpoint(): clamp the loaded checkpoint to the header store
+                       [from    |-> Max(persisted.from, tail),
+                        head    |-> Max(persisted.head, storeHead),
+                        failed  |-> Restrict(persisted.failed, {h \in DOMAIN persisted.failed : h >= tail}),
+                        workers |-> {[w EXCEPT !.from = Max(w.from, tail)] :
+                                       w \in {x \in persisted.workers : x.to >= tail}}]
          n == Cardinality(cp0.workers)
      IN \E f \in [1..n -> cp0.workers] :       \* resumed in (random) slice order
           /\ \A a, b \in 1..n : a # b => f[a] # f[b]
@@ -123,7 +129,7 @@ Start ==
   /\ inRetry' = EmptyFn
   /\ phase' = "running" /\ cpc' = "spawn"
   /\ snap' = None /\ bgPrev' = 0
-  /\ UNCHANGED <<persisted, storeHead, sampledOK, budget>>
+  /\ UNCHANGED <<persisted, storeHead, tail, sampledOK, budget>>
 
 (***************************************************************************)
 (* The job loop at the top of run(): retry first, then catch-up, while the *)
@@ -140,7 +146,7 @@ SpawnRetry(h) ==
   /\ nextId' = nextId + 1
   /\ jobs' = [i \in DOMAIN jobs \cup {nextId + 1} |->
                 IF i = nextId + 1 THEN Job("retry", h, h) ELSE jobs[i]]
-  /\ UNCHANGED <<phase, cpc, next, head, done, persisted, snap, bgPrev, storeHead, sampledOK, budget>>
+  /\ UNCHANGED <<phase, cpc, next, head, done, persisted, snap, bgPrev, storeHead, tail, sampledOK, budget>>
 
 SpawnCatchup ==
   /\ CoordAlive /\ cpc = "spawn" /\ ~LimitReached
@@ -151,7 +157,7 @@ SpawnCatchup ==
        /\ jobs' = [i \in DOMAIN jobs \cup {nextId + 1} |->
                      IF i = nextId + 1 THEN Job("catchup", next, to) ELSE jobs[i]]
        /\ next' = to + 1
-  /\ UNCHANGED <<phase, cpc, head, failed, inRetry, done, persisted, snap, bgPrev, storeHead,
+  /\ UNCHANGED <<phase, cpc, head, failed, inRetry, done, persisted, snap, bgPrev, storeHead, tail,
                  sampledOK, budget>>
 
 SpawnEnd ==      \* nothing (more) to spawn: block in select
@@ -159,7 +165,7 @@ SpawnEnd ==      \* nothing (more) to spawn: block in select
   /\ LimitReached \/ (DueFailed = {} /\ next > head)
   /\ cpc' = "select"
   /\ UNCHANGED <<phase, next, head, failed, inRetry, jobs, nextId, done, persisted, snap, bgPrev,
-                 storeHead, sampledOK, budget>>
+                 storeHead, tail, sampledOK, budget>>
 
 (***************************************************************************)
 (* select branch: a header from the subscription.  Any height may be      *)
@@ -180,7 +186,7 @@ NewHead(h) ==
                  ELSE UNCHANGED <<next, nextId, jobs>>
             /\ done' = CheckDone(DOMAIN jobs', DOMAIN failed, next', h)   \* updateHead -> checkDone
   /\ cpc' = "spawn"
-  /\ UNCHANGED <<phase, failed, inRetry, persisted, snap, bgPrev, sampledOK, budget>>
+  /\ UNCHANGED <<phase, failed, inRetry, persisted, snap, bgPrev, sampledOK, budget, tail>>
 
 (***************************************************************************)
 (* select branch: a worker's result (handleResult).                        *)
@@ -211,7 +217,7 @@ Deliver(id) ==
                   /\ inRetry' = Restrict(inRetry, DOMAIN inRetry \ (j.from..j.to))
         /\ done' = CheckDone(js, DOMAIN failed', next, head)
   /\ cpc' = "spawn"
-  /\ UNCHANGED <<phase, next, head, nextId, persisted, snap, bgPrev, storeHead, sampledOK, budget>>
+  /\ UNCHANGED <<phase, next, head, nextId, persisted, snap, bgPrev, storeHead, tail, sampledOK, budget>>
 
 (***************************************************************************)
 (* select branch: waitCh -- SamplingStats / getCheckpoint pause the        *)
@@ -222,7 +228,7 @@ Poke ==
   /\ CoordAlive /\ cpc = "select"
   /\ cpc' = "spawn"
   /\ UNCHANGED <<phase, next, head, failed, inRetry, jobs, nextId, done, persisted, snap, bgPrev,
-                 storeHead, sampledOK, budget>>
+                 storeHead, tail, sampledOK, budget>>
 
 (* runBackgroundStore tick: getCheckpoint ... *)
 BgSnapshot ==
@@ -230,7 +236,7 @@ BgSnapshot ==
   /\ snap' = Checkpoint
   /\ cpc' = "spawn"
   /\ UNCHANGED <<phase, next, head, failed, inRetry, jobs, nextId, done, persisted, bgPrev,
-                 storeHead, sampledOK, budget>>
+                 storeHead, tail, sampledOK, budget>>
 
 (* ... and, possibly after further coordinator steps, store it iff SampleFrom advanced *)
 BgPersist ==
@@ -239,7 +245,7 @@ BgPersist ==
        THEN persisted' = snap /\ bgPrev' = snap.from
        ELSE UNCHANGED <<persisted, bgPrev>>
   /\ snap' = None
-  /\ UNCHANGED <<phase, cpc, next, head, failed, inRetry, jobs, nextId, done, storeHead,
+  /\ UNCHANGED <<phase, cpc, next, head, failed, inRetry, jobs, nextId, done, storeHead, tail,
                  sampledOK, budget>>
 
 (***************************************************************************)
@@ -254,26 +260,26 @@ StopBegin ==     \* getCheckpoint + store, context still alive
   /\ persisted' = Checkpoint
   /\ phase' = "stopping"
   /\ cpc' = "spawn"
-  /\ UNCHANGED <<next, head, failed, inRetry, jobs, nextId, done, snap, bgPrev, storeHead, sampledOK>>
+  /\ UNCHANGED <<next, head, failed, inRetry, jobs, nextId, done, snap, bgPrev, storeHead, tail, sampledOK>>
 
 StopCancel ==
   /\ phase = "stopping"
   /\ phase' = "cancelled"
   /\ UNCHANGED <<cpc, next, head, failed, inRetry, jobs, nextId, done, persisted, snap, bgPrev,
-                 storeHead, sampledOK, budget>>
+                 storeHead, tail, sampledOK, budget>>
 
 CoordCtxDone ==  \* the coordinator's select picks ctx.Done
   /\ phase = "cancelled" /\ cpc = "select"
   /\ cpc' = "gone"
   /\ UNCHANGED <<phase, next, head, failed, inRetry, jobs, nextId, done, persisted, snap, bgPrev,
-                 storeHead, sampledOK, budget>>
+                 storeHead, tail, sampledOK, budget>>
 
 WorkerCtxDone(id) ==   \* a worker notices the cancelled context: leaves without reporting
   /\ phase = "cancelled"
   /\ id \in DOMAIN jobs /\ jobs[id].st \in {"sampling", "finished"}
   /\ jobs' = [jobs EXCEPT ![id].st = "exited"]
   /\ UNCHANGED <<phase, cpc, next, head, failed, inRetry, nextId, done, persisted, snap, bgPrev,
-                 storeHead, sampledOK, budget>>
+                 storeHead, tail, sampledOK, budget>>
 
 StopFinal ==     \* checkpoint #2 from the quiescent coordinator state
   /\ phase = "cancelled" /\ cpc = "gone"
@@ -283,7 +289,7 @@ StopFinal ==     \* checkpoint #2 from the quiescent coordinator state
   /\ jobs' = EmptyFn /\ failed' = EmptyFn /\ inRetry' = EmptyFn
   /\ next' = 0 /\ head' = 0 /\ nextId' = 0 /\ done' = FALSE /\ snap' = None /\ bgPrev' = 0
   /\ cpc' = "gone"
-  /\ UNCHANGED <<storeHead, sampledOK, budget>>
+  /\ UNCHANGED <<storeHead, tail, sampledOK, budget>>
 
 (* The process dies: only the datastore survives. *)
 Crash ==
@@ -294,14 +300,21 @@ Crash ==
   /\ jobs' = EmptyFn /\ failed' = EmptyFn /\ inRetry' = EmptyFn
   /\ next' = 0 /\ head' = 0 /\ nextId' = 0 /\ done' = FALSE /\ snap' = None /\ bgPrev' = 0
   /\ cpc' = "gone"
-  /\ UNCHANGED <<persisted, storeHead, sampledOK>>
+  /\ UNCHANGED <<persisted, storeHead, tail, sampledOK>>
 
 (* The header store keeps syncing while the DASer is down. *)
 StoreAdvance(h) ==
   /\ phase = "stopped" /\ h \in Heights /\ h > storeHead
   /\ storeHead' = h
   /\ UNCHANGED <<phase, cpc, next, head, failed, inRetry, jobs, nextId, done, persisted, snap,
-                 bgPrev, sampledOK, budget>>
+                 bgPrev, sampledOK, budget, tail>>
+
+(* The header store prunes old headers while the DASer is down: its tail advances. *)
+TailAdvance(t) ==
+  /\ phase = "stopped" /\ t \in Heights /\ t > tail /\ t <= storeHead
+  /\ tail' = t
+  /\ UNCHANGED <<phase, cpc, next, head, failed, inRetry, jobs, nextId, done, persisted, snap,
+                 bgPrev, storeHead, sampledOK, budget>>
 
 (***************************************************************************)
 (* A worker samples its next height (worker.run loop body + setResult).    *)
@@ -330,7 +343,7 @@ WorkerStep(id, o) ==
                                  !.wfailed = IF isFail THEN j.wfailed \cup {h} ELSE j.wfailed]]
                   /\ sampledOK' = IF isFail THEN sampledOK ELSE sampledOK \cup {h}
   /\ UNCHANGED <<phase, cpc, next, head, failed, inRetry, nextId, done, persisted, snap, bgPrev,
-                 storeHead>>
+                 storeHead, tail>>
 
 (* Time passes: the back-off of a failed height elapses. *)
 BackoffExpire(h) ==
@@ -338,7 +351,7 @@ BackoffExpire(h) ==
   /\ h \in DOMAIN failed /\ ~failed[h].due
   /\ failed' = [failed EXCEPT ![h].due = TRUE]
   /\ UNCHANGED <<phase, cpc, next, head, inRetry, jobs, nextId, done, persisted, snap, bgPrev,
-                 storeHead, sampledOK, budget>>
+                 storeHead, tail, sampledOK, budget>>
 
 Init ==
   /\ phase = "stopped" /\ cpc = "gone"
@@ -346,6 +359,7 @@ Init ==
   /\ failed = EmptyFn /\ inRetry = EmptyFn /\ jobs = EmptyFn
   /\ persisted = None /\ snap = None /\ bgPrev = 0
   /\ storeHead \in TailH..MaxHeight
+  /\ tail = TailH
   /\ sampledOK = {}
   /\ budget = [fail |-> FailBudget, cancel |-> CancelBudget, stop |-> StopBudget]
 
@@ -360,6 +374,7 @@ Next ==
   \/ \E id \in DOMAIN jobs : WorkerCtxDone(id)
   \/ StopFinal \/ Crash
   \/ \E h \in Heights : StoreAdvance(h)
+  \/ \E t \in Heights : TailAdvance(t)
   \/ \E id \in DOMAIN jobs, o \in {"ok", "outside", "fail", "cancel"} : WorkerStep(id, o)
   \/ \E h \in Heights : BackoffExpire(h)
 
@@ -376,20 +391,20 @@ Covers(j, h) == /\ h \in j.from..j.to
 
 NoLostHeight ==
   phase \in {"running", "stopping"} =>
-    \A h \in TailH..head :
+    \A h \in tail..head :
       \/ h \in sampledOK
       \/ h >= next
       \/ h \in DOMAIN failed \/ h \in DOMAIN inRetry
       \/ \E id \in DOMAIN jobs : Covers(jobs[id], h)
 
 SampledHeadSound ==
-  phase \in {"running", "stopping"} => \A h \in TailH..SampledChainHead : h \in sampledOK
+  phase \in {"running", "stopping"} => \A h \in tail..SampledChainHead : h \in sampledOK
 
 (* Whatever checkpoint is in the datastore covers every height that is not sampled: resuming    *)
 (* from it samples that height again.  (sampledOK only grows, so it suffices to state it as a   *)
 (* state invariant.)                                                                            *)
 CpCovers(cp) ==
-  \A h \in TailH..cp.head :
+  \A h \in tail..cp.head :
     \/ h \in sampledOK
     \/ h >= cp.from
     \/ h \in DOMAIN cp.failed
@@ -442,7 +457,7 @@ Fairness ==
   /\ WF_vars(BgPersist)
 LiveSpec == Spec /\ Fairness
 
-AllSampled == \A h \in TailH..head : h \in sampledOK
+AllSampled == \A h \in tail..head : h \in sampledOK
 EventuallyAllSampled == <>[](phase = "running" /\ AllSampled)
 EventuallyDone == <>[](phase = "running" => done)
 =============================================================================
